@@ -16,6 +16,7 @@ RULE = ("fragment streams of real messages (2..4 fragments exhaustively, 5..7 ra
         "exactly one complete sent message (bytes, type, origin) and no message may be delivered "
         "twice. Non-trivial: >=1 enqueue accepted; distinct = distinct (fragment counts, senders, "
         "id relation, delivery pattern, dequeue points).")
+RULE += (" Later rounds added: tail-replay histories for types that coincide with fragment counters, queue-pressure histories, direct and multicast messages sharing origin and frame id (destination is part of a message's identity).")
 REQUIRED = {"dequeued_is_sent_message": 2000, "at_most_once": 2000, "histories": 5000}
 BUDGET = {"quick": 480, "thorough": 900}
 
